@@ -111,11 +111,7 @@ type vnRun struct {
 
 func (r *vnRun) start(s string) *vnTask {
 	t := &vnTask{s: s, grant: make(chan struct{}), events: make(chan vnEvent, 4), parkBefore: true}
-	snap := r.snaps[s]
-	if snap == nil {
-		snap = r.scn.build(r.w, s)
-		r.snaps[s] = snap
-	}
+	snap := r.scn.snapshotOf(r, s)
 	w := r.w
 	ready := make(chan struct{})
 	go func() {
@@ -238,6 +234,7 @@ type vnScenario struct {
 	txs    map[string]*common.VersionedTransaction
 	signer common.Address
 	times  map[string]uint64
+	bind   func(r *vnRun)
 }
 
 var vnBTC = common.BitcoinAssetId
@@ -366,6 +363,67 @@ func vnScenarioByName(name string) *vnScenario {
 		sc.build = func(w *vnWorld, s string) *common.Snapshot {
 			ci := map[string]string{"X": "A", "Y": "B"}[s]
 			return w.snapshotAuto(sc.chains[ci], []*common.VersionedTransaction{sc.txs[s]}, sc.times[s])
+		}
+	case "O", "U":
+		// O: W and V fill round 1 of chain A, X opens round 2 committing to both (any delivery order).
+		// U: X opens round 2 of A referencing the final round 1 of B ({Y}), unknown until Z opened round 2 of B.
+		where := map[string]string{"W": "A", "V": "A", "X": "A", "Y": "B", "Z": "B"}
+		sc.prep = func(w *vnWorld, sc *vnScenario) {
+			sc.chains["A"], sc.chains["B"], sc.chains["C"] = 1, 2, 3
+			for i, n := range []string{"W", "V", "Y", "X", "Z"} {
+				sc.txs[n] = sc.btcDeposit(w, n)
+				sc.times[n] = vnTime(1, 25, 0) + uint64(i)*uint64(time.Second)/2
+			}
+			sc.times["X"], sc.times["Z"] = vnTime(1, 30, 0), vnTime(1, 31, 0)
+			for _, tx := range sc.txs {
+				w.cacheTxs(tx)
+			}
+		}
+		var run *vnRun
+		plain := func(w *vnWorld, n string) *common.Snapshot {
+			chain := w.chain(sc.chains[where[n]])
+			genesisRefs := chain.State.CacheRound.References
+			if chain.State.CacheRound.Number != 1 {
+				// round 1 references never change; read them back from the stored final round
+				rd, _ := w.store.ReadRound(chain.State.CacheRound.References.Self)
+				genesisRefs = rd.References
+			}
+			s := &common.Snapshot{Version: common.SnapshotVersionCommonEncoding, NodeId: chain.ChainId, RoundNumber: 1,
+				References: genesisRefs.Copy(), Timestamp: sc.times[n]}
+			s.AddTransaction(sc.txs[n].PayloadHash())
+			w.sign(chain, s)
+			return s
+		}
+		final1 := func(w *vnWorld, c string, members ...string) crypto.Hash {
+			var snaps []*common.Snapshot
+			for _, m := range members {
+				sn := *sc.snapshotOf(run, m)
+				snaps = append(snaps, &sn)
+			}
+			_, _, h := common.ComputeRoundHash(w.ids[sc.chains[c]], 1, snaps)
+			return h
+		}
+		sc.bind = func(r *vnRun) { run = r }
+		sc.build = func(w *vnWorld, s string) *common.Snapshot {
+			switch s {
+			case "W", "V", "Y":
+				return plain(w, s)
+			}
+			chain := w.chain(sc.chains[where[s]])
+			refs := &common.RoundLink{}
+			switch {
+			case s == "X" && name == "O":
+				refs.Self, refs.External = final1(w, "A", "W", "V"), w.chain(sc.chains["C"]).State.FinalRound.Hash
+			case s == "X":
+				refs.Self, refs.External = final1(w, "A", "W"), final1(w, "B", "Y")
+			case s == "Z":
+				refs.Self, refs.External = final1(w, "B", "Y"), w.chain(sc.chains["C"]).State.FinalRound.Hash
+			}
+			sn := &common.Snapshot{Version: common.SnapshotVersionCommonEncoding, NodeId: chain.ChainId, RoundNumber: 2,
+				References: refs, Timestamp: sc.times[s]}
+			sn.AddTransaction(sc.txs[s].PayloadHash())
+			w.sign(chain, sn)
+			return sn
 		}
 	case "T":
 		sc.prep = func(w *vnWorld, sc *vnScenario) {
@@ -525,6 +583,9 @@ func vnReplayWalk(t *testing.T, tr *vTrace, wi int, wk vnWalk) {
 	sc := vnScenarioByName(wk.Scn)
 	sc.prep(w, sc)
 	run := &vnRun{w: w, scn: sc, tasks: map[string]*vnTask{}, snaps: map[string]*common.Snapshot{}}
+	if sc.bind != nil {
+		sc.bind(run)
+	}
 	newSched := func() {
 		run.sched = &vnSched{tasks: map[int64]*vnTask{}}
 		w.proxy.sched = run.sched
